@@ -123,7 +123,7 @@ impl Drop for ColumnBatchBuilder {
                 unsafe {
                     let base = archetype.get_dynamic(ty.id(), 0, 0).unwrap();
                     for i in 0..fill {
-                        base.as_ptr().add(i as usize).drop_in_place()
+                        ty.drop(base.as_ptr().add(i as usize * ty.layout().size()))
                     }
                 }
             }
